@@ -422,14 +422,6 @@ pub broadcast proof fn lemma_shr_shr(x: u128, a: u128, b: u128)
     assert(a < 128 && b < 128 && add(a, b) < 128 ==> ((x >> a) >> b) == x >> add(a, b)) by (bit_vector);
 }
 
-/// ... and a shift by c is a shift by a <= c followed by a shift by c - a
-pub broadcast proof fn lemma_shr_split(x: u128, a: u128, c: u128)
-    requires a <= c < 128
-    ensures (#[trigger] (x >> c)) == (#[trigger] (x >> a)) >> ((c - a) as u128)
-{
-    assert(a <= c && c < 128 ==> (x >> c) == (x >> a) >> sub(c, a)) by (bit_vector);
-}
-
 pub broadcast group group_msb {
-    lemma_msb_step64, lemma_msb_step32, lemma_msb_step16, lemma_msb_step8, lemma_msb_step4, lemma_shr_shr, lemma_shr_split,
+    lemma_msb_step64, lemma_msb_step32, lemma_msb_step16, lemma_msb_step8, lemma_msb_step4, lemma_shr_shr,
 }
